@@ -168,7 +168,7 @@ fn batchmaker(o: &Opts) {
         }
         let dbpath = format!("{}/db_bm_{}_{}", o.out, o.seed, k);
         let _ = std::fs::remove_dir_all(&dbpath);
-        let (sealed, stored_ok, digests_ok, panicked, net_ok) = rt.block_on(async {
+        let (sealed, stored_ok, digests_ok, panicked, net_ok, pairing_ok) = rt.block_on(async {
             network::verif::tap_start();
             let store = store::Store::new(&dbpath).unwrap();
             let (tx_tx, rx_tx) = tokio::sync::mpsc::channel(1000);
@@ -179,7 +179,8 @@ fn batchmaker(o: &Opts) {
             BatchMaker::spawn(batch_size, delay, rx_tx, tx_msg, vec![(peers[0].0, addr(1)), (peers[1].0, addr(2))]);
             Processor::spawn(store.clone(), rx_batch, tx_dig);
             settle().await;
-            let mut sealed: Vec<Vec<String>> = vec![]; let mut stored_ok = true; let mut digests_ok = true; let mut panicked = false; let mut net_ok = true;
+            let mut sealed: Vec<Vec<String>> = vec![]; let mut stored_ok = true; let mut digests_ok = true; let mut panicked = false; let mut net_ok = true; let mut pairing_ok = true;
+            let addr_of = |pk: &crypto::PublicKey| if *pk == peers[0].0 { addr(1) } else { addr(2) };
             let mut st = store.clone();
             for ev in &evs {
                 match ev {
@@ -191,6 +192,8 @@ fn batchmaker(o: &Opts) {
                 while let Ok(m) = rx_msg.try_recv() {
                     // the sealed batch as broadcast and as handed on: its exact serialized bytes
                     let taps = network::verif::tap_drain();
+                    // the i-th handler is the handle of the i-th transmission: it must carry the name of the peer that transmission went to
+                    if m.handlers.len() != taps.len() || m.handlers.iter().zip(taps.iter()).any(|((pk, _), (_, a, _))| addr_of(pk) != *a) { pairing_ok = false; }
                     if taps.len() != 2 || taps.iter().any(|(rel, _, b)| !*rel || b[..] != m.batch[..]) { net_ok = false; if std::env::var("HSDBG").is_ok() { eprintln!("taps {:?}", taps.iter().map(|(r,a,b)| (*r,*a,b.len())).collect::<Vec<_>>()); } }
                     match bincode::deserialize::<MempoolMessage>(&m.batch) { Ok(MempoolMessage::Batch(b)) => out_now.push(coq_list(&b.iter().map(|t| coq_bytes(t)).collect::<Vec<_>>())), _ => { out_now.push("[]".into()); } }
                     // Processor: stored and announced under the hash of exactly these bytes
@@ -203,7 +206,7 @@ fn batchmaker(o: &Opts) {
                 sealed.push(out_now);
                 if panicked { break; }
             }
-            (sealed, stored_ok, digests_ok, panicked, net_ok)
+            (sealed, stored_ok, digests_ok, panicked, net_ok, pairing_ok)
         });
         let _ = std::fs::remove_dir_all(&dbpath);
         let evt: Vec<String> = evs.iter().map(|x| match x { Some(t) => format!("BTx {}", coq_bytes(t)), None => "BTimer".into() }).collect();
@@ -214,7 +217,7 @@ fn batchmaker(o: &Opts) {
         if panicked { e.stat("impl_panicked", 1); }
         if sealed.iter().any(|x| !x.is_empty()) && seen.insert(evt.join(";")) { e.stat("distinct_nontrivial", 1); }
         e.case(k, "", &format!("batch_case {} {} {} {} {} {}", if bench { "true" } else { "false" }, batch_size, coq_list(&evt), coq_list(&obs), if panicked { "true" } else { "false" },
-               coq_list(&[stored_ok, digests_ok, net_ok].iter().map(|b| if *b { "true" } else { "false" }).collect::<Vec<_>>())),
+               coq_list(&[stored_ok, digests_ok, net_ok, pairing_ok].iter().map(|b| if *b { "true" } else { "false" }).collect::<Vec<_>>())),
                json!({"case": k, "bench": bench, "batch_size": batch_size, "events": evs.iter().map(|x| match x { Some(t) => format!("tx {}", hex(t)), None => "timer".into() }).collect::<Vec<_>>(), "impl_panicked": panicked, "empty_tx": evs.iter().any(|x| matches!(x, Some(t) if t.is_empty()))}));
     }
     e.finish(&o.out, "batchmaker", o.seed);
